@@ -48,6 +48,8 @@ TRANSPARENT = {
     "std::sync::Mutex::lock": (0, ()),
     "std::sync::poison::mutex::Mutex::lock": (0, ()),
     "std::cell::Cell::new": (0, ()),
+    "std::slice::from_raw_parts": (0, ()),
+    "std::slice::from_raw_parts_mut": (0, ()),
     "std::result::Result::map_err": (0, ()),
     "core::slice::as_ptr": (0, ()),
     "core::slice::as_mut_ptr": (0, ()),
@@ -628,22 +630,72 @@ class Explorer:
             if l < len(fn.locals) and fn.local_ty(l) == "bool" and ds and all(
                     d[1] is not None and d[2]["rv"]["r"] == "use" and not d[2]["lhs"].get("p") and op_const(d[2]["rv"]["a"][0]) is not None for d in ds):
                 locs.add(l)
-        # copies of constant-valued flags that are switched on (`let flag = matches!(..); if !flag || ..`)
+        def _close_places():
+            work = [pk for pk in places if len(pk) == 1]
+            while work:
+                pk = work.pop()
+                for d in fn.defs().get(pk[0], []):
+                    src = None
+                    if d[1] is not None and d[2]["rv"]["r"] == "use" and not d[2]["lhs"].get("p"):
+                        src = op_local(d[2]["rv"]["a"][0])
+                    elif d[1] is None and strip_generics(d[2].get("callee") or "") in BRANCH_CALLS and d[2]["args"]:
+                        src = op_local(d[2]["args"][0])
+                    if src is not None and (src,) not in places:
+                        places.add((src,))
+                        work.append((src,))
+        # bool locals that are switched on (possibly through copies) and only ever hold constants, copies of such locals,
+        # or the payload of an enum value (`match helper()? { true => .., false => .. }`, `let closed = drain()?; if closed {..}`)
+        switched = {op_local(fn.term(b)["on"]) for b in range(len(fn.blocks)) if fn.term(b)["t"] == "switch"} - {None}
+
+        def _feeds(l, seen):
+            """locals whose value reaches l through plain copies"""
+            if l in seen:
+                return
+            seen.add(l)
+            for d in fn.defs().get(l, []):
+                if d[1] is not None and d[2]["rv"]["r"] == "use" and not d[2]["lhs"].get("p"):
+                    src = op_place(d[2]["rv"]["a"][0])
+                    if src is not None and not src.get("p"):
+                        _feeds(src["l"], seen)
+        cand = set()
+        for l in switched:
+            if l < len(fn.locals):
+                _feeds(l, cand)
         changed = True
         while changed:
             changed = False
-            for b in range(len(fn.blocks)):
-                t = fn.term(b)
-                if t["t"] != "switch":
-                    continue
-                l = op_local(t["on"])
-                if l is None or l in locs:
-                    continue
+            for l in sorted(cand - locs):
                 ds = fn.defs().get(l, [])
-                if ds and all(d[1] is not None and d[2]["rv"]["r"] == "use" and not d[2]["lhs"].get("p") and
-                              (op_local(d[2]["rv"]["a"][0]) in locs or op_const(d[2]["rv"]["a"][0]) is not None) for d in ds):
+                if not ds:
+                    continue
+                ok = True
+                pay = []
+                for d in ds:
+                    if d[1] is None or d[2]["rv"]["r"] != "use" or d[2]["lhs"].get("p"):
+                        ok = False
+                        break
+                    a0 = d[2]["rv"]["a"][0]
+                    if op_const(a0) is not None:
+                        continue
+                    pl = op_place(a0)
+                    if pl is None:
+                        ok = False
+                        break
+                    if not pl.get("p"):
+                        if pl["l"] in locs:
+                            continue
+                        ok = False
+                        break
+                    if len([e for e in pl["p"] if isinstance(e, dict) and "f" in e]) == 1:
+                        pay.append((pl["l"],))
+                        continue
+                    ok = False
+                    break
+                if ok:
                     locs.add(l)
+                    places.update(pay)
                     changed = True
+        _close_places()
         return locs, places
 
     def apply_block(self, b, env):
@@ -664,10 +716,24 @@ class Explorer:
             if not lhs.get("p") and (lhs["l"],) in self.interesting_places:
                 if rv["r"] == "agg" and "vi" in rv["kind"]:
                     env[("d", (lhs["l"],))] = rv["kind"]["vi"]
+                    if len(rv["a"]) == 1:
+                        c = op_const(rv["a"][0])
+                        if c is None and op_local(rv["a"][0]) is not None:
+                            c = env0.get(("c", op_local(rv["a"][0])))
+                        if c is not None:
+                            env[("p", (lhs["l"],))] = c       # constant payload (e.g. Ok(true))
                 elif rv["r"] == "use":
                     src = op_local(rv["a"][0])
                     if src is not None and ("d", (src,)) in env0:
                         env[("d", (lhs["l"],))] = env0[("d", (src,))]
+                    if src is not None and ("p", (src,)) in env0:
+                        env[("p", (lhs["l"],))] = env0[("p", (src,))]
+            # reading the payload of an enum value whose payload constant is known
+            if not lhs.get("p") and lhs["l"] in self.interesting_locals and rv["r"] == "use":
+                pl = op_place(rv["a"][0])
+                if pl is not None and pl.get("p") and ("p", (pl["l"],)) in env0 and [e for e in pl["p"] if isinstance(e, dict) and "f" in e][-1:] and \
+                        len([e for e in pl["p"] if isinstance(e, dict) and "f" in e]) == 1:
+                    env[("c", lhs["l"])] = env0[("p", (pl["l"],))]
             if not lhs.get("p") and lhs["l"] in self.interesting_locals and rv["r"] == "use":
                 c = op_const(rv["a"][0])
                 if c is None:
@@ -686,6 +752,8 @@ class Explorer:
                 if src is not None and ("d", (src,)) in env0:
                     # Ok(0) -> Continue(0), Err(1) -> Break(1)
                     env[("d", (t["dest"]["l"],))] = env0[("d", (src,))]
+                if src is not None and ("p", (src,)) in env0:
+                    env[("p", (t["dest"]["l"],))] = env0[("p", (src,))]
         return env
 
     @staticmethod
@@ -693,7 +761,7 @@ class Explorer:
         for k in list(env):
             if k[0] == "c" and k[1] == local:
                 del env[k]
-            elif k[0] in ("d", "dn") and k[1][0] == local:
+            elif k[0] in ("d", "dn", "p") and k[1][0] == local:
                 del env[k]
 
     def successors(self, b, env_after):
